@@ -68,9 +68,18 @@ def main():
             rc0, out0 = demo(wt, sd)
             res["demo_without_change"] = {"rc": rc0, "tail": out0[-400:]}
         rc, out = sh(["git", "-C", wt, "apply", os.path.join(sd, "patch.diff")])
+        if rc:
+            # the patch was written against an older HEAD (before later fix: commits): try a 3-way merge
+            rc, out2 = sh(["git", "-C", wt, "apply", "--3way", os.path.join(sd, "patch.diff")])
+            res["applied_3way"] = (rc == 0)
+            if rc == 0:
+                sh(["git", "-C", wt, "reset", "-q"])
+            out += out2
         res["applies"] = (rc == 0)
         if rc:
             res["apply_error"] = out
+            with open(os.path.join(sd, f"result_{a.tier}.json"), "w") as fh:
+                json.dump(res, fh, indent=1)
             print(json.dumps(res, indent=1))
             return
         if a.confirm:
